@@ -4,14 +4,71 @@
    satisfies Inv (agents and food on pairwise distinct cells inside the grid, ids 0..n-1, levels in range), step 0, nobody
    loading, nothing eaten, food strictly inside the grid (not on the border), no two foods on the same or on 4-adjacent
    cells, food levels between 1 and the sum of the three lowest agent levels (exactly that sum with force_coop).
-   The harness recovers the draws from the implementation's reset state and checks valid_draws + equality. *)
+   The harness recovers the draws from the implementation's reset state and checks valid_draws + equality.
+   NON-VACUITY FOR EVERY ADMITTED CONFIGURATION: under the constructor's own assertions ([constructible]: grid_size >= 5, agents,
+   food >= 1, max_agent_level >= 2, (grid_size-2)^2 - num_agents > 5 * num_food) no sampling step ever has an empty support:
+   whatever food cells were drawn so far, the running mask keeps a True cell for the next food (each draw clears at most 5 of
+   the (grid_size-2)^2 interior cells); whatever the food cells, at least num_agents cells stay True for the
+   without-replacement agent draw; hence a valid draw vector exists, every valid partial food sampling extends to one, and
+   the well-formedness theorem is never vacuous.  The assertion is what makes this true: on a 5x5 grid (not admitted with 6
+   foods) the support is empty after 5 draws (Example C10_Lbf_support_runs_out_unadmitted).
+   CHECKER: gen_ok_b (run by the harness on the implementation's reset states) is equivalent to the Prop gen_props on states
+   with pairwise distinct food ids; complete unconditionally; NOT sound without distinct ids (refutation witness). *)
 From Coq Require Import QArith.
-Require Import JV.Base.Prelude JV.Base.JaxIndex JV.Base.Codec JV.Base.TimeStep JV.Model.Lbf JV.Proofs.Lbf JV.Proofs.Lbf_Gen.
+Require Import JV.Base.Prelude JV.Base.JaxIndex JV.Base.Codec JV.Base.TimeStep JV.Model.Lbf JV.Proofs.Lbf JV.Proofs.Lbf_Gen JV.Proofs.Lbf_GenExists JV.Proofs.Lbf_GenSpec.
 Open Scope Z_scope.
 Theorem C10_Lbf_generated_wellformed c coop d :
   0 < gsz c -> 1 <= nag c -> 0 <= nfood c -> valid_draws c coop d = true -> gen_props c coop (gen c coop d).
 Proof. exact (gen_wellformed c coop d). Qed.
 Print Assumptions C10_Lbf_generated_wellformed.
+Theorem C10_Lbf_food_support_nonempty c ps :
+  constructible c -> zlen ps < nfood c -> exists p, pickable (mask_after (gsz c) (food_mask0 (gsz c)) ps) p = true.
+Proof. exact (food_support_nonempty c ps). Qed.
+Theorem C10_Lbf_agent_support_enough c fps :
+  constructible c -> zlen fps = nfood c ->
+  exists L, zlen L = nag c /\ nodup_z L = true /\ forallb (pickable (agent_mask (gsz c) fps)) L = true.
+Proof. exact (agent_support_enough c fps). Qed.
+Theorem C10_Lbf_valid_draws_extend c coop ps :
+  constructible c -> food_draws_ok (gsz c) (food_mask0 (gsz c)) ps = true -> zlen ps <= nfood c ->
+  exists d, valid_draws c coop d = true /\ firstn (length ps) (d_food d) = ps.
+Proof. exact (valid_draws_extend c coop ps). Qed.
+Theorem C10_Lbf_valid_draws_exist c coop : constructible c -> exists d, valid_draws c coop d = true.
+Proof. exact (valid_draws_exist c coop). Qed.
+Theorem C10_Lbf_generated_wellformed_nonvacuous c coop :
+  constructible c -> exists d, valid_draws c coop d = true /\ gen_props c coop (gen c coop d).
+Proof. exact (gen_nonvacuous c coop). Qed.
+Print Assumptions C10_Lbf_food_support_nonempty.
+Print Assumptions C10_Lbf_agent_support_enough.
+Print Assumptions C10_Lbf_valid_draws_extend.
+Print Assumptions C10_Lbf_generated_wellformed_nonvacuous.
+(* the boolean checker run on implementation states decides gen_props *)
+Theorem C10_Lbf_gen_ok_b_spec c coop s : NoDup (map fid (foods s)) -> (gen_ok_b c coop s = true <-> gen_props c coop s).
+Proof. exact (gen_ok_b_spec c coop s). Qed.
+Theorem C10_Lbf_gen_ok_b_complete c coop s : gen_props c coop s -> gen_ok_b c coop s = true.
+Proof. exact (gen_ok_b_complete c coop s). Qed.
+Theorem C10_Lbf_gen_ok_b_without_ids_refuted : exists c coop s, gen_ok_b c coop s = true /\ ~ gen_props c coop s.
+Proof. exact gen_ok_b_needs_ids. Qed.
+Theorem C10_Lbf_gen_ok_ids_b_spec c coop s :
+  gen_ok_ids_b c coop s = true <-> gen_props c coop s /\ NoDup (map fid (foods s)).
+Proof. exact (gen_ok_ids_b_spec c coop s). Qed.
+Theorem C10_Lbf_gen_ids_distinct c coop d : valid_draws c coop d = true -> NoDup (map fid (foods (gen c coop d))).
+Proof. exact (gen_ids_distinct c coop d). Qed.
+Theorem C10_Lbf_gen_passes_checker c coop d :
+  0 < gsz c -> 1 <= nag c -> 0 <= nfood c -> valid_draws c coop d = true -> gen_ok_b c coop (gen c coop d) = true.
+Proof. exact (gen_passes_checker c coop d). Qed.
+Print Assumptions C10_Lbf_gen_ok_b_spec.
+Print Assumptions C10_Lbf_gen_ok_b_without_ids_refuted.
+Print Assumptions C10_Lbf_gen_ok_ids_b_spec.
+(* the tightest admitted configurations of the shipped sizes, and an unadmitted one where the support does run out *)
+Example C10_Lbf_admitted_nonvacuous :
+  constructible (mkC 5 3 1 1 3 true 0%Q false 2) /\ constructible (mkC 6 5 2 1 3 true 0%Q false 2) /\ constructible (mkC 10 33 6 2 5 true 0%Q false 2).
+Proof. unfold constructible. cbn [gsz nag nfood maxlvl]. lia. Qed.
+Example C10_Lbf_support_runs_out_unadmitted :
+  let g := 5 in let ps := [12; 6; 8; 16; 18] in
+  food_draws_ok g (food_mask0 g) ps = true
+  /\ existsb (pickable (mask_after g (food_mask0 g) ps)) (zrange (g * g)) = false
+  /\ ~ constructible (mkC 5 1 6 1 3 true 0%Q false 2).
+Proof. split; [vm_compute; reflexivity|]. split; [vm_compute; reflexivity|]. unfold constructible. cbn [gsz nag nfood maxlvl]. lia. Qed.
 (* force_coop with two or three agents: every agent is needed (no agent reaches the food level alone) *)
 Theorem C10_Lbf_coop_needs_everybody alv x :
   (2 <= length alv <= 3)%nat -> Forall (fun l => 1 <= l) alv -> In x alv -> x < max_food_level alv.
